@@ -77,18 +77,32 @@ Lemma wf_alloc : forall s i pvf lvf r, wf s -> wf (mkst (next s :: live s) (S (n
 Proof.
   intros s i pvf lvf r [Hn Hb]. unfold bounded in *. split; cbn.
   - constructor; [|assumption]. intro H. apply Hb in H. lia.
-  - intros b [H|H]; [lia | apply Hb in H; lia].
+  - intros b H; cbn in *. destruct H as [H|H]; [lia | apply Hb in H; lia].
 Qed.
 
 Lemma wf_same_live : forall s n i pvf lvf r, wf s -> next s <= n -> wf (mkst (live s) n i pvf lvf r).
-Proof. intros s n i pvf lvf r [Hn Hb] Hle. unfold bounded in *. split; cbn; [assumption | intros b H; apply Hb in H; lia]. Qed.
+Proof. intros s n i pvf lvf r [Hn Hb] Hle. unfold bounded in *. split; [assumption | intros b H; cbn in *; apply Hb in H; lia]. Qed.
+
+Lemma wf_sub : forall s l' n i pvf lvf r, wf s -> NoDup l' -> (forall b, In b l' -> In b (live s)) -> next s <= n ->
+  wf (mkst l' n i pvf lvf r).
+Proof.
+  intros s l' n i pvf lvf r [Hn Hb] Hn' Hsub Hle. unfold bounded in *. split; [assumption|].
+  intros b H; cbn in *. apply Hsub, Hb in H. lia.
+Qed.
+
+Lemma wf_realloc : forall s b i pvf lvf r, wf s -> wf (mkst (next s :: remove1 b (live s)) (S (next s)) i pvf lvf r).
+Proof.
+  intros s b i pvf lvf r [Hn Hb]. unfold bounded in *. split.
+  - cbn. constructor; [| apply remove1_NoDup, Hn]. intro H. apply remove1_In, Hb in H. lia.
+  - intros c H; cbn in *. destruct H as [H|H]; [lia | apply remove1_In, Hb in H; lia].
+Qed.
 
 Section WithFails.
 Variable fails : nat -> bool.
 
 Theorem exec_wf : forall c s o s', wf s -> exec fails c s = (o, s') -> wf s' /\ next s <= next s' /\ count s <= count s'.
 Proof.
-  unfold wf, bounded. induction c; intros s o s' Hwf He; cbn in He; fold (wf s) in *.
+  induction c; intros s o s' Hwf He; cbn in He.
   - inversion He; subst; auto.
   - destruct (exec fails c1 s) as [o1 s1] eqn:E1. destruct (IHc1 _ _ _ Hwf E1) as (H1 & H2 & H3).
     destruct o1; [| inversion He; subst; auto | inversion He; subst; auto].
@@ -100,28 +114,21 @@ Proof.
     + inversion He; subst; cbn. split; [apply wf_same_live; auto | lia].
     + destruct (pv s x) as [b|].
       * destruct (memb b (live s)) eqn:M; inversion He; subst; cbn; [| auto].
-        destruct Hwf as [Hn Hb]. split; [|lia]. split; cbn.
-        -- constructor; [| apply remove1_NoDup, Hn]. intro H. apply remove1_In in H. apply Hb in H. lia.
-        -- intros c [H|H]; [lia | apply remove1_In in H; apply Hb in H; lia].
+        split; [apply wf_realloc; auto | lia].
       * inversion He; subst; cbn. split; [apply wf_alloc; auto | lia].
   - destruct (pv s x) as [b|]; [| inversion He; subst; auto].
     destruct (memb b (live s)); inversion He; subst; cbn; [| auto].
-    destruct Hwf as [Hn Hb]. split; [|lia]. split; cbn; [apply remove1_NoDup, Hn | intros c H; apply remove1_In in H; auto].
+    split; [|lia]. apply wf_sub with (s := s); [assumption | apply remove1_NoDup, Hwf | intros c H; eapply remove1_In; eauto | lia].
   - destruct (pv s x); eauto.
   - destruct (pv s x) as [b|]; [destruct (memb b (live s))|]; inversion He; subst; auto.
   - inversion He; subst; cbn. split; [apply wf_same_live; auto | cbn; lia].
   - inversion He; subst; cbn. split; [apply wf_same_live; auto | cbn; lia].
-  - destruct (pv s x) as [b|]; [destruct (memb b (live s))|]; inversion He; subst; auto.
-    cbn. split; [apply wf_same_live; auto | cbn; lia].
+  - destruct (pv s x) as [b|]; [destruct (memb b (live s))|]; inversion He; subst; first [solve [auto] | solve [cbn; split; [apply wf_same_live; auto | cbn; lia]]].
   - destruct (all_live (lv s l) (live s)); inversion He; subst; auto.
-  - destruct (all_live (lv s l1) (live s)); inversion He; subst; auto.
-    cbn. split; [apply wf_same_live; auto | cbn; lia].
+  - destruct (all_live (lv s l1) (live s)); inversion He; subst; first [solve [auto] | solve [cbn; split; [apply wf_same_live; auto | cbn; lia]]].
   - inversion He; subst; cbn. split; [apply wf_same_live; auto | cbn; lia].
   - inversion He; subst; cbn. split; [apply wf_same_live; auto | cbn; lia].
-  - destruct (free_all (lv s l) (live s)) as [lv'|] eqn:F; inversion He; subst; auto.
-    cbn. destruct Hwf as [Hn Hb]. split; [|cbn; lia]. split; cbn.
-    + eapply free_all_NoDup; eauto.
-    + intros b H. eapply free_all_In in H; eauto.
+  - destruct (free_all (lv s l) (live s)) as [lv'|] eqn:F; inversion He; subst; auto; cbn; split; [|lia]; apply wf_sub with (s := s); [assumption | eapply free_all_NoDup; [eauto | apply Hwf] | intros b H; eapply free_all_In; eauto | lia].
   - inversion He; subst; cbn. split; [apply wf_same_live; auto | cbn; lia].
   - inversion He; subst; auto.
   - destruct (exec fails c s) as [o1 s1] eqn:E1. destruct (IHc _ _ _ Hwf E1) as (H1 & H2 & H3).
@@ -131,3 +138,573 @@ Proof.
 Qed.
 
 End WithFails.
+
+Lemma upd_same : forall A (f : nat -> A) x v, upd f x v x = v.
+Proof. intros. unfold upd. rewrite Nat.eqb_refl. reflexivity. Qed.
+
+Lemma upd_other : forall A (f : nat -> A) x v y, y <> x -> upd f x v y = f y.
+Proof. intros. unfold upd. destruct (Nat.eqb y x) eqn:E; [apply Nat.eqb_eq in E; congruence | reflexivity]. Qed.
+
+(* ------------------------------------------------------------------ the allocate-and-push loops *)
+Definition pushed (s s' : state) (new : list nat) (x l : nat) : Prop :=
+  live s' = new ++ live s /\ lv s' l = new ++ lv s l /\
+  (forall l', l' <> l -> lv s' l' = lv s l') /\ (forall y, y <> x -> pv s' y = pv s y).
+
+Lemma pushed_refl : forall s x l, pushed s s [] x l.
+Proof. intros. repeat split; auto. Qed.
+
+Lemma pushed_trans : forall s1 s2 s3 n1 n2 x l, pushed s1 s2 n1 x l -> pushed s2 s3 n2 x l -> pushed s1 s3 (n2 ++ n1) x l.
+Proof.
+  intros s1 s2 s3 n1 n2 x l (A1 & A2 & A3 & A4) (B1 & B2 & B3 & B4). repeat split.
+  - rewrite B1, A1, app_assoc. reflexivity.
+  - rewrite B2, A2, app_assoc. reflexivity.
+  - intros. rewrite B3, A3; auto.
+  - intros. rewrite B4, A4; auto.
+Qed.
+
+Definition loop_result (o : outcome) (s s' : state) (new : list nat) (n : nat) : Prop :=
+  (o = Normal /\ rc s' = rc s /\ length new = n /\ count s' = count s + n) \/
+  (o = Returned /\ rc s' = ENOMEM /\ length new < n /\ count s' <= count s + n).
+
+Section Loops.
+Variable fails : nat -> bool.
+
+Lemma alloc_push_spec : forall x l s, exists o s' new,
+  exec fails (alloc_push x l) s = (o, s') /\ pushed s s' new x l /\ loop_result o s s' new 1.
+Proof.
+  intros x l s. unfold alloc_push. cbn. destruct (fails (S (count s))) eqn:F; cbn.
+  - rewrite upd_same. cbn. eexists _, _, []. split; [reflexivity|]. split.
+    + repeat split; cbn; auto. intros. apply upd_other; auto.
+    + right. cbn. repeat split; auto; lia.
+  - repeat (rewrite ?upd_same, ?Nat.eqb_refl; cbn).
+    eexists _, _, [next s]. split; [reflexivity|]. split.
+    + repeat split; cbn; auto.
+      * apply upd_same.
+      * intros. apply upd_other; auto.
+      * intros. apply upd_other; auto.
+    + left. cbn. repeat split; auto; lia.
+Qed.
+
+Lemma repeat_push_spec : forall x l n s, exists o s' new,
+  exec fails (repeat_cmd n (alloc_push x l)) s = (o, s') /\ pushed s s' new x l /\ loop_result o s s' new n.
+Proof.
+  induction n as [|n IH]; intros s.
+  - exists Normal, s, []. cbn. split; [reflexivity|]. split; [apply pushed_refl|]. left. repeat split; auto.
+  - destruct (alloc_push_spec x l s) as (o1 & s1 & n1 & E1 & P1 & R1).
+    cbn [repeat_cmd exec]. rewrite E1. destruct R1 as [(-> & Hrc & Hlen & Hc) | (-> & Hrc & Hlen & Hc)].
+    + destruct (IH s1) as (o2 & s2 & n2 & E2 & P2 & R2). exists o2, s2, (n2 ++ n1). split; [exact E2|].
+      split; [eapply pushed_trans; eauto|].
+      destruct R2 as [(-> & Hrc2 & Hlen2 & Hc2) | (-> & Hrc2 & Hlen2 & Hc2)]; [left | right]; rewrite app_length;
+        repeat split; auto; try congruence; lia.
+    + exists Returned, s1, n1. split; [reflexivity|]. split; [assumption|]. right. repeat split; auto; lia.
+Qed.
+
+Lemma push_loops_spec : forall x l ns s, exists o s' new,
+  exec fails (push_loops ns x l) s = (o, s') /\ pushed s s' new x l /\ loop_result o s s' new (list_sum ns).
+Proof.
+  induction ns as [|n ns IH]; intros s.
+  - exists Normal, s, []. cbn. split; [reflexivity|]. split; [apply pushed_refl|]. left. repeat split; auto.
+  - destruct (repeat_push_spec x l n s) as (o1 & s1 & n1 & E1 & P1 & R1).
+    unfold push_loops in *. change (list_sum (n :: ns)) with (n + list_sum ns). cbn [foreach exec]. rewrite E1.
+    destruct R1 as [(-> & Hrc & Hlen & Hc) | (-> & Hrc & Hlen & Hc)].
+    + destruct (IH s1) as (o2 & s2 & n2 & E2 & P2 & R2). exists o2, s2, (n2 ++ n1). split; [exact E2|].
+      split; [eapply pushed_trans; eauto|].
+      destruct R2 as [(-> & Hrc2 & Hlen2 & Hc2) | (-> & Hrc2 & Hlen2 & Hc2)]; [left | right]; rewrite app_length;
+        repeat split; auto; try congruence; lia.
+    + exists Returned, s1, n1. split; [reflexivity|]. split; [assumption|]. right. repeat split; auto; lia.
+Qed.
+
+End Loops.
+
+(* ------------------------------------------------------------------ atom-list builders (atoms.c) *)
+Definition list_builder (ns : list nat) (src dst : nat) : cmd :=
+  Seq (ClearL dst) (Seq (UseList src) (Seq (push_loops ns vNEW dst) (Return OK))).
+
+Lemma atoms_wide_is : forall src dst n, atoms_wide src dst n = list_builder (repeat 1 n) src dst.
+Proof. reflexivity. Qed.
+Lemma atoms_xor_is : forall src dst n a b, atoms_xor src dst n a b = list_builder (repeat (xor_iters a b) n) src dst.
+Proof. reflexivity. Qed.
+Lemma atoms_ci_is : forall src dst ns, atoms_case_insensitive src dst ns = list_builder ns src dst.
+Proof. reflexivity. Qed.
+
+Section Builders.
+Variable fails : nat -> bool.
+
+(* the builder returns; its output list owns exactly the new blocks, also when it returns ERROR_INSUFFICIENT_MEMORY
+   (the caller destroys the partial list) *)
+Lemma list_builder_spec : forall ns src dst s,
+  src <> dst -> (forall b, In b (lv s src) -> In b (live s)) ->
+  exists s' new, exec fails (list_builder ns src dst) s = (Returned, s') /\
+    live s' = new ++ live s /\ lv s' dst = new /\ (forall l', l' <> dst -> lv s' l' = lv s l') /\
+    (forall y, y <> vNEW -> pv s' y = pv s y) /\
+    ((rc s' = OK /\ length new = list_sum ns /\ count s' = count s + list_sum ns) \/
+     (rc s' = ENOMEM /\ length new < list_sum ns /\ count s' <= count s + list_sum ns)).
+Proof.
+  intros ns src dst s Hne Hsrc. unfold list_builder. cbn [exec].
+  set (s0 := mkst (live s) (next s) (count s) (pv s) (upd (lv s) dst []) (rc s)).
+  assert (Hl : lv s0 src = lv s src) by (cbn; apply upd_other; auto).
+  rewrite Hl. cbn [live s0]. change (live s0) with (live s). rewrite (all_live_incl _ _ Hsrc).
+  destruct (push_loops_spec fails vNEW dst ns s0) as (o & s1 & new & E & (P1 & P2 & P3 & P4) & R).
+  rewrite E. cbn in P1, P2. rewrite upd_same, app_nil_r in P2.
+  destruct R as [(-> & Hrc & Hlen & Hc) | (-> & Hrc & Hlen & Hc)].
+  - eexists _, new. split; [reflexivity|]. cbn. cbn in Hc.
+    split; [assumption|]. split; [assumption|]. split; [intros l' Hl'; rewrite P3 by auto; cbn; apply upd_other; auto|].
+    split; [assumption|]. left. auto.
+  - exists s1, new. split; [reflexivity|]. cbn in Hc.
+    split; [assumption|]. split; [assumption|]. split; [intros l' Hl'; rewrite P3 by auto; cbn; apply upd_other; auto|].
+    split; [assumption|]. right. auto.
+Qed.
+
+(* ---- yr_atoms_extract_from_string *)
+Definition J (live0 : list nat) (s : state) : Prop := Permutation (live s) (lv s lATOMS ++ live0).
+
+Definition stage_ok (live0 : list nat) (r : outcome * state) : Prop :=
+  (fst r = Returned /\ rc (snd r) = ENOMEM /\ Permutation (live (snd r)) live0) \/
+  (fst r = Normal /\ J live0 (snd r)).
+
+Definition final_ok (live0 : list nat) (r : outcome * state) : Prop :=
+  fst r = Returned /\
+  ((rc (snd r) = OK /\ J live0 (snd r)) \/ (rc (snd r) = ENOMEM /\ Permutation (live (snd r)) live0)).
+
+Lemma seq_stage : forall live0 a b s,
+  stage_ok live0 (exec fails a s) -> (forall s1, J live0 s1 -> stage_ok live0 (exec fails b s1)) ->
+  stage_ok live0 (exec fails (Seq a b) s).
+Proof.
+  intros live0 a b s Ha Hb. cbn [exec]. destruct (exec fails a s) as [o s1]. unfold stage_ok in Ha. cbn [fst snd] in Ha.
+  destruct Ha as [(-> & H1 & H2) | (-> & H1)]; [left; auto | apply Hb, H1].
+Qed.
+
+Lemma seq_final : forall live0 a b s,
+  stage_ok live0 (exec fails a s) -> (forall s1, J live0 s1 -> final_ok live0 (exec fails b s1)) ->
+  final_ok live0 (exec fails (Seq a b) s).
+Proof.
+  intros live0 a b s Ha Hb. cbn [exec]. destruct (exec fails a s) as [o s1]. unfold stage_ok in Ha. cbn [fst snd] in Ha.
+  destruct Ha as [(-> & H1 & H2) | (-> & H1)]; [split; cbn; auto | apply Hb, H1].
+Qed.
+
+Lemma J_In : forall live0 s b, J live0 s -> In b (lv s lATOMS) -> In b (live s).
+Proof.
+  intros live0 s b HJ Hb. eapply Permutation_in; [apply Permutation_sym, HJ | apply in_or_app; left; exact Hb].
+Qed.
+
+(* FAIL_ON_ERROR_WITH_CLEANUP( builder(atoms, &dst), { destroy(atoms); destroy(dst); atoms = NULL; } ) *)
+Lemma builder_stage : forall live0 ns dst s, dst <> lATOMS -> J live0 s ->
+  let r := exec fails (fail_on_error_with_cleanup (list_builder ns lATOMS dst) (destroy2 lATOMS dst)) s in
+  (fst r = Returned /\ rc (snd r) = ENOMEM /\ Permutation (live (snd r)) live0) \/
+  (fst r = Normal /\ exists new, live (snd r) = new ++ live s /\ lv (snd r) dst = new /\ lv (snd r) lATOMS = lv s lATOMS).
+Proof.
+  intros live0 ns dst s Hne HJ. unfold fail_on_error_with_cleanup. cbn [exec].
+  destruct (list_builder_spec ns lATOMS dst s (not_eq_sym Hne) (fun b => J_In live0 s b HJ))
+    as (s1 & new & E & L1 & L2 & L3 & L4 & R).
+  rewrite E. destruct R as [(Hrc & _) | (Hrc & _)]; rewrite Hrc.
+  - right. cbn. split; [reflexivity|]. exists new. auto.
+  - left. unfold destroy2. cbn [exec].
+    assert (HP : Permutation (live s1) (lv s1 lATOMS ++ (new ++ live0))).
+    { rewrite L1, (L3 lATOMS) by auto. unfold J in HJ. rewrite HJ.
+      rewrite !app_assoc. apply Permutation_app_tail, Permutation_app_comm. }
+    destruct (free_all_perm _ _ _ HP) as (lv1 & F1 & P1). rewrite F1. cbn [lv live].
+    rewrite L2. destruct (free_all_perm _ _ _ P1) as (lv2 & F2 & P2). rewrite F2. cbn.
+    repeat split; auto.
+Qed.
+
+Definition stage_keep (ns : list nat) (dst : nat) : cmd :=
+  Seq (fail_on_error_with_cleanup (list_builder ns lATOMS dst) (destroy2 lATOMS dst)) (Append lATOMS dst).
+Definition stage_replace (ns : list nat) (dst : nat) : cmd :=
+  Seq (fail_on_error_with_cleanup (list_builder ns lATOMS dst) (destroy2 lATOMS dst)) (Seq (FreeList lATOMS) (MoveL lATOMS dst)).
+
+Lemma stage_keep_ok : forall live0 ns dst s, dst <> lATOMS -> J live0 s -> stage_ok live0 (exec fails (stage_keep ns dst) s).
+Proof.
+  intros live0 ns dst s Hne HJ. unfold stage_keep. cbn [exec].
+  pose proof (builder_stage live0 ns dst s Hne HJ) as H. cbv zeta in H.
+  destruct (exec fails (fail_on_error_with_cleanup (list_builder ns lATOMS dst) (destroy2 lATOMS dst)) s) as [o s1].
+  cbn [fst snd] in H. destruct H as [(-> & H1 & H2) | (-> & new & H1 & H2 & H3)]; [left; auto|].
+  right. cbn [exec].
+  assert (Hl : all_live (lv s1 lATOMS) (live s1) = true).
+  { apply all_live_incl. intros b Hb. rewrite H1. apply in_or_app. right. rewrite H3 in Hb. eapply J_In; eauto. }
+  rewrite Hl. cbn. split; [reflexivity|]. unfold J. cbn. rewrite ?upd_same, H1, H2, H3. unfold J in HJ. rewrite HJ.
+  rewrite <- !app_assoc. apply Permutation_app_swap_app.
+Qed.
+
+Lemma stage_replace_ok : forall live0 ns dst s, dst <> lATOMS -> J live0 s -> stage_ok live0 (exec fails (stage_replace ns dst) s).
+Proof.
+  intros live0 ns dst s Hne HJ. unfold stage_replace. cbn [exec].
+  pose proof (builder_stage live0 ns dst s Hne HJ) as H. cbv zeta in H.
+  destruct (exec fails (fail_on_error_with_cleanup (list_builder ns lATOMS dst) (destroy2 lATOMS dst)) s) as [o s1].
+  cbn [fst snd] in H. destruct H as [(-> & H1 & H2) | (-> & new & H1 & H2 & H3)]; [left; auto|].
+  right. cbn [exec].
+  assert (HP : Permutation (live s1) (lv s1 lATOMS ++ (new ++ live0))).
+  { rewrite H1, H3. unfold J in HJ. rewrite HJ. rewrite !app_assoc. apply Permutation_app_tail, Permutation_app_comm. }
+  destruct (free_all_perm _ _ _ HP) as (lv1 & F1 & P1). rewrite F1. cbn. split; [reflexivity|].
+  unfold J. cbn. rewrite ?upd_same, H2. exact P1.
+Qed.
+
+Lemma skip_ok : forall live0 s, J live0 s -> stage_ok live0 (exec fails Skip s).
+Proof. intros. right. cbn. auto. Qed.
+
+Lemma extract_is : forall i, extract_from_string i =
+  seqs [ Malloc vITEM; IfNull vITEM (Return ENOMEM) Skip; Use vITEM; ClearL lATOMS; Push vITEM lATOMS;
+         (if in_wide i then if in_ascii i then stage_keep (repeat 1 (length (atoms0 i))) lWIDE
+                            else stage_replace (repeat 1 (length (atoms0 i))) lWIDE else Skip);
+         (if in_nocase i then stage_keep (map (fun a => length (case_variants a)) (atoms1 i)) lCI else Skip);
+         (if in_xor i then stage_replace (repeat (xor_iters (in_xmin i) (in_xmax i)) (length (atoms2 i))) lXOR else Skip);
+         UseList lATOMS; Return OK ].
+Proof. intros i. unfold extract_from_string. destruct (in_wide i), (in_ascii i), (in_nocase i), (in_xor i); reflexivity. Qed.
+
+Lemma extract_prefix : forall rest s,
+  exec fails (Seq (Malloc vITEM) (Seq (IfNull vITEM (Return ENOMEM) Skip) (Seq (Use vITEM) (Seq (ClearL lATOMS) (Seq (Push vITEM lATOMS) rest))))) s =
+  if fails (S (count s))
+  then (Returned, mkst (live s) (next s) (S (count s)) (upd (pv s) vITEM None) (lv s) ENOMEM)
+  else exec fails rest (mkst (next s :: live s) (S (next s)) (S (count s)) (upd (pv s) vITEM (Some (next s)))
+                             (upd (upd (lv s) lATOMS []) lATOMS [next s]) (rc s)).
+Proof.
+  intros rest s. cbn [exec]. destruct (fails (S (count s))); cbn; [reflexivity|].
+  rewrite Nat.eqb_refl. cbn. rewrite Nat.eqb_refl. reflexivity.
+Qed.
+
+Theorem extract_from_string_spec : forall i s, final_ok (live s) (exec fails (extract_from_string i) s).
+Proof.
+  intros i s. rewrite extract_is. cbn [seqs]. rewrite extract_prefix.
+  destruct (fails (S (count s))) eqn:F.
+  - split; [reflexivity|]. right. split; [reflexivity | apply Permutation_refl].
+  - set (s1 := mkst (next s :: live s) (S (next s)) (S (count s)) (upd (pv s) vITEM (Some (next s)))
+                    (upd (upd (lv s) lATOMS []) lATOMS [next s]) (rc s)).
+    assert (HJ : J (live s) s1) by (unfold J; cbn; apply Permutation_refl).
+    clearbody s1.
+    apply seq_final.
+    { destruct (in_wide i); [destruct (in_ascii i); [apply stage_keep_ok | apply stage_replace_ok]; auto; discriminate | apply skip_ok; auto]. }
+    intros s2 HJ2. apply seq_final.
+    { destruct (in_nocase i); [apply stage_keep_ok; auto; discriminate | apply skip_ok; auto]. }
+    intros s3 HJ3. apply seq_final.
+    { destruct (in_xor i); [apply stage_replace_ok; auto; discriminate | apply skip_ok; auto]. }
+    intros s4 HJ4. cbn [exec].
+    rewrite (all_live_incl _ _ (fun b => J_In _ _ b HJ4)). cbn. split; [reflexivity|]. left. split; [reflexivity | exact HJ4].
+Qed.
+
+End Builders.
+
+(* ------------------------------------------------------------------ straight-line functions *)
+Lemma if_same : forall A (b : bool) (x : A), (if b then x else x) = x.
+Proof. destruct b; reflexivity. Qed.
+
+Ltac eqb_simp :=
+  repeat match goal with
+         | |- context [Nat.eqb ?a ?a] => rewrite (Nat.eqb_refl a)
+         | |- context [Nat.eqb ?a ?b] => replace (Nat.eqb a b) with false by (symmetry; apply Nat.eqb_neq; lia)
+         end.
+
+Ltac memb_simp :=
+  repeat match goal with
+         | H : In ?b ?l |- context [memb ?b ?l] => rewrite (proj2 (memb_In b l) H)
+         end; rewrite ?if_same.
+
+Ltac run := repeat (cbn; eqb_simp; memb_simp).
+
+Section Straight.
+Variable fails : nat -> bool.
+
+(* notebook.c *)
+Theorem notebook_create_spec : forall s, exists s', exec fails notebook_create s = (Returned, s') /\
+  ((rc s' = OK /\ exists n p, pv s' vNB = Some n /\ lv s' lPAGES = [p] /\ live s' = p :: n :: live s) \/
+   (rc s' = ENOMEM /\ live s' = live s)).
+Proof.
+  intros s. unfold notebook_create. cbn [seqs exec].
+  destruct (fails (S (count s))) eqn:F1; run.
+  - eexists. split; [reflexivity|]. right. auto.
+  - destruct (fails (S (S (count s)))) eqn:F2; run.
+    + eexists. split; [reflexivity|]. right. auto.
+    + eexists. split; [reflexivity|]. left. split; [reflexivity|]. eexists _, _. cbn. auto.
+Qed.
+
+Theorem notebook_alloc_spec : forall needs s n, pv s vNB = Some n -> In n (live s) ->
+  (forall b, In b (lv s lPAGES) -> In b (live s)) ->
+  exists s', exec fails (notebook_alloc needs) s = (Returned, s') /\ pv s' vNB = Some n /\
+  ((rc s' = OK /\ exists new, live s' = new ++ live s /\ lv s' lPAGES = new ++ lv s lPAGES /\ length new = (if needs then 1 else 0)) \/
+   (rc s' = ENOMEM /\ live s' = live s /\ lv s' lPAGES = lv s lPAGES)).
+Proof.
+  intros needs s n Hn Hin Hpages. unfold notebook_alloc. cbn [seqs exec]. rewrite Hn. memb_simp.
+  rewrite (all_live_incl _ _ Hpages). destruct needs.
+  - cbn [seqs exec]. destruct (fails (S (count s))) eqn:F1; run.
+    + eexists. split; [reflexivity|]. cbn. split; [assumption|]. right. auto.
+    + assert (Hl : all_live (lv s lPAGES) (next s :: live s) = true) by (apply all_live_incl; intros b Hb; right; auto).
+      unfold all_live in Hl. cbn [memb] in Hl. rewrite Hl. cbn. eexists. split; [reflexivity|]. cbn. split; [assumption|]. left. split; [reflexivity|].
+      exists [next s]. auto.
+  - cbn [seqs exec]. rewrite (all_live_incl _ _ Hpages). cbn. eexists. split; [reflexivity|]. cbn. split; [assumption|].
+    left. split; [reflexivity|]. exists []. auto.
+Qed.
+
+Theorem notebook_destroy_spec : forall s n frame, pv s vNB = Some n ->
+  Permutation (live s) (n :: lv s lPAGES ++ frame) ->
+  exists s', exec fails notebook_destroy s = (Returned, s') /\ rc s' = OK /\ Permutation (live s') frame.
+Proof.
+  intros s n frame Hn HP. unfold notebook_destroy. cbn [seqs exec]. rewrite Hn.
+  assert (Hin : In n (live s)) by (eapply Permutation_in; [apply Permutation_sym, HP | left; reflexivity]).
+  memb_simp.
+  assert (HP2 : Permutation (live s) (lv s lPAGES ++ (n :: frame))).
+  { rewrite HP. apply Permutation_middle. }
+  destruct (free_all_perm _ _ _ HP2) as (lv1 & F1 & P1). rewrite F1. cbn. rewrite Hn.
+  assert (Hin1 : In n lv1) by (eapply Permutation_in; [apply Permutation_sym, P1 | left; reflexivity]).
+  memb_simp. cbn. eexists. split; [reflexivity|]. cbn. split; [reflexivity|]. apply remove1_perm_inv. exact P1.
+Qed.
+
+(* stack.c *)
+Theorem stack_create_spec : forall s, exists s', exec fails stack_create s = (Returned, s') /\
+  ((rc s' = OK /\ exists a d, pv s' vSTACK = Some a /\ pv s' vITEMS = Some d /\ live s' = d :: a :: live s) \/
+   (rc s' = ENOMEM /\ live s' = live s /\ pv s' vSTACK = None)).
+Proof.
+  intros s. unfold stack_create. cbn [seqs exec].
+  destruct (fails (S (count s))) eqn:F1; run.
+  - eexists. split; [reflexivity|]. right. auto.
+  - destruct (fails (S (S (count s)))) eqn:F2; run.
+    + eexists. split; [reflexivity|]. right. auto.
+    + eexists. split; [reflexivity|]. left. split; [reflexivity|]. eexists _, _. cbn. auto.
+Qed.
+
+Theorem stack_push_spec : forall full s a d, wf s -> pv s vSTACK = Some a -> pv s vITEMS = Some d -> In a (live s) -> In d (live s) -> a <> d ->
+  exists s', exec fails (stack_push full) s = (Returned, s') /\ pv s' vSTACK = Some a /\
+  ((rc s' = OK /\ exists d', pv s' vITEMS = Some d' /\ In a (live s') /\ In d' (live s') /\ a <> d' /\
+                  Permutation (d :: live s') (d' :: live s)) \/
+   (rc s' = ENOMEM /\ live s' = live s /\ pv s' vITEMS = Some d)).
+Proof.
+  intros full s a d Hwf Ha Hd Hina Hind Hne. unfold stack_push. cbn [seqs exec]. rewrite Ha. memb_simp. destruct full.
+  - cbn [seqs exec]. destruct (fails (S (count s))) eqn:F1.
+    + run. eexists. split; [reflexivity|]. cbn. split; [assumption|]. right. auto.
+    + rewrite Hd. memb_simp. run. eexists. split; [reflexivity|]. cbn. split; [assumption|]. left. split; [reflexivity|].
+      exists (next s). split; [reflexivity|]. split.
+      * right. pose proof (remove1_perm d (live s) Hind) as P. 
+        assert (In a (d :: remove1 d (live s))) as [Hx|Hx] by (eapply Permutation_in; eauto); [congruence | exact Hx].
+      * split; [left; reflexivity|]. split.
+        -- intro Hx. subst a. destruct Hwf as [_ Hb]. apply Hb in Hina. lia.
+        -- eapply perm_trans; [apply perm_swap|]. apply perm_skip. apply Permutation_sym, remove1_perm, Hind.
+  - cbn [seqs exec]. rewrite Hd. memb_simp. cbn. eexists. split; [reflexivity|]. cbn. split; [assumption|]. left. split; [reflexivity|].
+    exists d. repeat split; auto.
+Qed.
+
+Theorem stack_destroy_spec : forall s a d frame, pv s vSTACK = Some a -> pv s vITEMS = Some d ->
+  Permutation (live s) (a :: d :: frame) -> a <> d ->
+  exists s', exec fails stack_destroy s = (Normal, s') /\ Permutation (live s') frame.
+Proof.
+  intros s a d frame Ha Hd HP Hne. unfold stack_destroy. cbn [seqs exec]. rewrite Ha.
+  assert (Hina : In a (live s)) by (eapply Permutation_in; [apply Permutation_sym, HP | left; reflexivity]).
+  assert (Hind : In d (live s)) by (eapply Permutation_in; [apply Permutation_sym, HP | right; left; reflexivity]).
+  memb_simp. rewrite Hd. memb_simp. cbn. rewrite Ha.
+  assert (P1 : Permutation (remove1 d (live s)) (a :: frame)).
+  { apply remove1_perm_inv. rewrite HP. apply perm_swap. }
+  assert (Hina1 : In a (remove1 d (live s))) by (eapply Permutation_in; [apply Permutation_sym, P1 | left; reflexivity]).
+  memb_simp. cbn. eexists. split; [reflexivity|]. cbn. apply remove1_perm_inv. exact P1.
+Qed.
+
+(* hash.c *)
+Theorem hash_create_spec : forall s, exists s', exec fails hash_create s = (Returned, s') /\
+  ((rc s' = OK /\ exists t, pv s' vTABLE = Some t /\ lv s' lENTRIES = [] /\ live s' = t :: live s) \/
+   (rc s' = ENOMEM /\ live s' = live s)).
+Proof.
+  intros s. unfold hash_create. cbn [seqs exec].
+  destruct (fails (S (count s))) eqn:F1; run.
+  - eexists. split; [reflexivity|]. right. auto.
+  - eexists. split; [reflexivity|]. left. split; [reflexivity|]. eexists. cbn. auto.
+Qed.
+
+(* on failure nothing is left behind; on success the table owns exactly the new blocks *)
+Lemma memb_older : forall t l extra, In t l -> memb t (extra ++ l) = true.
+Proof. intros. apply memb_In. apply in_or_app. right. assumption. Qed.
+
+Theorem hash_add_spec : forall has_ns s t, pv s vTABLE = Some t -> In t (live s) ->
+  exists s', exec fails (hash_add has_ns) s = (Returned, s') /\ pv s' vTABLE = Some t /\
+  ((rc s' = OK /\ exists new, live s' = new ++ live s /\ lv s' lENTRIES = rev new ++ lv s lENTRIES /\
+                  length new = (if has_ns then 3 else 2)) \/
+   (rc s' = ENOMEM /\ live s' = live s /\ lv s' lENTRIES = lv s lENTRIES)).
+Proof.
+  intros has_ns s t Ht Hin. unfold hash_add, hash_add_to. cbn [seqs exec].
+  destruct (fails (S (count s))) eqn:F1.
+  { run. eexists. split; [reflexivity|]. cbn. split; [assumption|]. right. auto. }
+  run. destruct (fails (S (S (count s)))) eqn:F2.
+  { run. eexists. split; [reflexivity|]. cbn. split; [assumption|]. right. auto. }
+  run. destruct has_ns.
+  - cbn [seqs exec]. run. destruct (fails (S (S (S (count s))))) eqn:F3.
+    { run. eexists. split; [reflexivity|]. cbn. split; [assumption|]. right. auto. }
+    run. rewrite Ht.
+    pose proof (memb_older t (live s) [S (S (next s)); S (next s); next s] Hin) as M. cbn [app memb] in M. rewrite M.
+    run. eexists. split; [reflexivity|]. cbn. split; [assumption|].
+    left. split; [reflexivity|]. exists [S (S (next s)); S (next s); next s]. auto.
+  - cbn [seqs exec]. run. rewrite Ht.
+    pose proof (memb_older t (live s) [S (next s); next s] Hin) as M. cbn [app memb] in M. rewrite M.
+    run. eexists. split; [reflexivity|]. cbn. split; [assumption|].
+    left. split; [reflexivity|]. exists [S (next s); next s]. auto.
+Qed.
+
+Theorem hash_destroy_spec : forall s t frame, pv s vTABLE = Some t ->
+  Permutation (live s) (t :: lv s lENTRIES ++ frame) ->
+  exists s', exec fails hash_destroy s = (Normal, s') /\ Permutation (live s') frame.
+Proof.
+  intros s t frame Ht HP. unfold hash_destroy. cbn [seqs exec]. rewrite Ht.
+  assert (Hin : In t (live s)) by (eapply Permutation_in; [apply Permutation_sym, HP | left; reflexivity]).
+  memb_simp.
+  assert (HP2 : Permutation (live s) (lv s lENTRIES ++ (t :: frame))) by (rewrite HP; apply Permutation_middle).
+  destruct (free_all_perm _ _ _ HP2) as (lv1 & F1 & P1). rewrite F1. cbn. rewrite Ht.
+  assert (Hin1 : In t lv1) by (eapply Permutation_in; [apply Permutation_sym, P1 | left; reflexivity]).
+  memb_simp. cbn. eexists. split; [reflexivity|]. cbn. apply remove1_perm_inv. exact P1.
+Qed.
+
+(* arena.c *)
+Theorem arena_create_spec : forall s, exists s', exec fails arena_create s = (Returned, s') /\
+  ((rc s' = OK /\ exists a, pv s' vARENA = Some a /\ lv s' lRELOCS = [] /\ live s' = a :: live s) \/
+   (rc s' = ENOMEM /\ live s' = live s)).
+Proof.
+  intros s. unfold arena_create. cbn [seqs exec].
+  destruct (fails (S (count s))) eqn:F1; run.
+  - eexists. split; [reflexivity|]. right. auto.
+  - eexists. split; [reflexivity|]. left. split; [reflexivity|]. eexists. cbn. auto.
+Qed.
+
+(* the relocation entries made before a failure stay in the arena's list: they are released with the arena *)
+Theorem arena_make_ptr_relocatable_spec : forall n s a, pv s vARENA = Some a -> In a (live s) ->
+  exists s' new, exec fails (arena_make_ptr_relocatable n) s = (Returned, s') /\ pv s' vARENA = Some a /\
+    live s' = new ++ live s /\ lv s' lRELOCS = new ++ lv s lRELOCS /\
+    ((rc s' = OK /\ length new = n) \/ (rc s' = ENOMEM /\ length new < n)).
+Proof.
+  intros n s a Ha Hin. unfold arena_make_ptr_relocatable. cbn [exec]. rewrite Ha. memb_simp.
+  destruct (push_loops_spec fails vNEW lRELOCS [n] s) as (o & s1 & new & E & (P1 & P2 & P3 & P4) & R).
+  rewrite E. cbn [list_sum fold_right] in R. rewrite Nat.add_0_r in R.
+  assert (Ha1 : pv s1 vARENA = Some a) by (rewrite P4; [assumption | discriminate]).
+  destruct R as [(-> & Hrc & Hlen & Hc) | (-> & Hrc & Hlen & Hc)].
+  - eexists _, new. split; [reflexivity|]. cbn. repeat split; auto.
+  - exists s1, new. split; [reflexivity|]. repeat split; auto.
+Qed.
+
+(* a failed growth leaves the buffer as it was; a successful one replaces the buffer's block *)
+Theorem arena_allocate_spec : forall path buf s a, pv s vARENA = Some a -> In a (live s) ->
+  (forall b, In b (lv s lRELOCS) -> In b (live s)) ->
+  (forall d, pv s (vBUF buf) = Some d -> In d (live s) /\ d <> a /\ ~ In d (lv s lRELOCS)) ->
+  exists s', exec fails (arena_allocate path buf) s = (Returned, s') /\
+    ((rc s' = ENOMEM /\ live s' = live s /\ pv s' (vBUF buf) = pv s (vBUF buf)) \/
+     (rc s' = OK /\ match path with
+                    | Grow => exists d', pv s' (vBUF buf) = Some d' /\
+                                match pv s (vBUF buf) with
+                                | Some d => Permutation (d :: live s') (d' :: live s)
+                                | None => live s' = d' :: live s
+                                end
+                    | _ => live s' = live s /\ pv s' (vBUF buf) = pv s (vBUF buf)
+                    end)).
+Proof.
+  intros path buf s a Ha Hin Hrel Hbuf. unfold arena_allocate. cbn [exec]. rewrite Ha. memb_simp. destruct path.
+  - cbn. eexists. split; [reflexivity|]. right. cbn. auto.
+  - cbn. eexists. split; [reflexivity|]. left. cbn. auto.
+  - cbn [seqs exec]. destruct (fails (S (count s))) eqn:F1.
+    + run. eexists. split; [reflexivity|]. left. cbn. repeat split; auto.
+    + destruct (pv s (vBUF buf)) as [d|] eqn:Hd.
+      * destruct (Hbuf d eq_refl) as (Hind & Hda & Hdr). memb_simp. run.
+        assert (Hl : all_live (lv s lRELOCS) (next s :: remove1 d (live s)) = true).
+        { apply all_live_incl. intros b Hb. right. pose proof (remove1_perm d (live s) Hind) as P.
+          assert (In b (d :: remove1 d (live s))) as [Hx|Hx] by (eapply Permutation_in; [exact P | auto]); [subst; contradiction | exact Hx]. }
+        unfold all_live in Hl. cbn [memb] in Hl. rewrite Hl. run.
+        eexists. split; [reflexivity|]. right. cbn. split; [reflexivity|]. exists (next s). rewrite upd_same. split; [reflexivity|].
+        eapply perm_trans; [apply perm_swap|]. apply perm_skip. apply Permutation_sym, remove1_perm, Hind.
+      * run.
+        assert (Hl : all_live (lv s lRELOCS) (next s :: live s) = true) by (apply all_live_incl; intros b Hb; right; auto).
+        unfold all_live in Hl. cbn [memb] in Hl. rewrite Hl. run.
+        eexists. split; [reflexivity|]. right. cbn. split; [reflexivity|]. exists (next s). rewrite upd_same. auto.
+Qed.
+
+End Straight.
+
+Definition buf_blocks (s : state) (is : list nat) : list nat :=
+  flat_map (fun i => match pv s (vBUF i) with Some d => [d] | None => [] end) is.
+
+Lemma free_buffers_spec : forall fails is s rest, Permutation (live s) (buf_blocks s is ++ rest) ->
+  exists s', exec fails (foreach is (fun i => IfNull (vBUF i) Skip (Free (vBUF i)))) s = (Normal, s') /\
+    pv s' = pv s /\ lv s' = lv s /\ rc s' = rc s /\ Permutation (live s') rest.
+Proof.
+  induction is as [|i is IH]; intros s rest HP.
+  - cbn. eexists. split; [reflexivity|]. cbn in HP. auto.
+  - cbn [foreach exec]. unfold buf_blocks in HP. cbn [flat_map] in HP. destruct (pv s (vBUF i)) as [d|] eqn:Hd.
+    + cbn [exec]. rewrite ?Hd.
+      assert (Hin : In d (live s)) by (eapply Permutation_in; [apply Permutation_sym, HP | left; reflexivity]).
+      rewrite (proj2 (memb_In _ _) Hin).
+      set (s1 := mkst (remove1 d (live s)) (next s) (count s) (pv s) (lv s) (rc s)).
+      destruct (IH s1 rest) as (s' & E & A & B & C & D).
+      { cbn. apply remove1_perm_inv. exact HP. }
+      exists s'. split; [exact E|]. auto.
+    + cbn [exec]. apply IH. exact HP.
+Qed.
+
+Theorem arena_release_spec : forall fails nbuf s a frame, pv s vARENA = Some a ->
+  Permutation (live s) (a :: buf_blocks s (seq 0 nbuf) ++ lv s lRELOCS ++ frame) ->
+  exists s', exec fails (arena_release nbuf) s = (Returned, s') /\ rc s' = OK /\ Permutation (live s') frame.
+Proof.
+  intros fails nbuf s a frame Ha HP. unfold arena_release. cbn [exec]. rewrite Ha.
+  assert (Hin : In a (live s)) by (eapply Permutation_in; [apply Permutation_sym, HP | left; reflexivity]).
+  rewrite (proj2 (memb_In _ _) Hin).
+  destruct (free_buffers_spec fails (seq 0 nbuf) s (lv s lRELOCS ++ (a :: frame))) as (s1 & E & A & B & C & D).
+  { rewrite HP. rewrite app_assoc. rewrite Permutation_middle. rewrite <- app_assoc. reflexivity. }
+  rewrite E. cbn [exec]. rewrite B.
+  destruct (free_all_perm _ _ _ D) as (lv1 & F1 & P1). rewrite F1. cbn. rewrite A, Ha.
+  assert (Hin1 : In a lv1) by (eapply Permutation_in; [apply Permutation_sym, P1 | left; reflexivity]).
+  rewrite (proj2 (memb_In _ _) Hin1). cbn. eexists. split; [reflexivity|]. cbn. split; [reflexivity|].
+  apply remove1_perm_inv. exact P1.
+Qed.
+
+Lemma NoDup_app_l : forall (a b : list nat), NoDup (a ++ b) -> NoDup a.
+Proof.
+  induction a as [|x a IH]; cbn; intros b H; [constructor|]. inversion H; subst. constructor; [|eauto].
+  intro Hx. apply H2. apply in_or_app. left. exact Hx.
+Qed.
+
+(* the returned atom list is destroyable: its nodes are distinct live blocks, and they are exactly what was added *)
+Corollary extract_from_string_fail_safe_full : forall fails i s o s', wf s ->
+  exec fails (extract_from_string i) s = (o, s') ->
+  o = Returned /\ wf s' /\
+  ((rc s' = OK /\ Permutation (live s') (lv s' lATOMS ++ live s) /\ NoDup (lv s' lATOMS) /\
+    (forall b, In b (lv s' lATOMS) -> In b (live s'))) \/
+   (rc s' = ENOMEM /\ Permutation (live s') (live s))).
+Proof.
+  intros fails i s o s' Hwf E. pose proof (extract_from_string_spec fails i s) as H. rewrite E in H.
+  destruct H as [Ho H]. cbn [fst snd] in *. split; [assumption|].
+  destruct (exec_wf fails _ _ _ _ Hwf E) as (Hwf' & _). split; [assumption|].
+  destruct H as [(Hrc & HJ) | (Hrc & HP)]; [left | right; auto].
+  unfold J in HJ. split; [assumption|]. split; [assumption|]. split.
+  - destruct Hwf' as [Hn _]. eapply Permutation_NoDup in Hn; [| exact HJ]. apply NoDup_app_l in Hn. exact Hn.
+  - intros b Hb. eapply Permutation_in; [apply Permutation_sym, HJ | apply in_or_app; left; exact Hb].
+Qed.
+
+(* ------------------------------------------------------------------ non-vacuity *)
+Definition ex_input : atoms_input := mkin [97; 98; 49; 100; 101]%N true true true true 1 3.
+
+Example extract_succeeds : let r := exec (fun _ => false) (extract_from_string ex_input) empty_state in
+  fst r = Returned /\ rc (snd r) = OK /\ length (lv (snd r) lATOMS) = 36 /\ length (live (snd r)) = 36 /\ count (snd r) = 48.
+Proof. vm_compute. repeat split; reflexivity. Qed.
+
+Example extract_fails_cleanly : forall k, In k (seq 1 48) ->
+  let r := exec (fail_kth k) (extract_from_string ex_input) empty_state in
+  fst r = Returned /\ rc (snd r) = ENOMEM /\ live (snd r) = [].
+Proof.
+  assert (H : forallb (fun k => let r := exec (fail_kth k) (extract_from_string ex_input) empty_state in
+              match fst r, rc (snd r), live (snd r) with Returned, ENOMEM, [] => true | _, _, _ => false end) (seq 1 48) = true)
+    by (vm_compute; reflexivity).
+  intros k Hk. rewrite forallb_forall in H. specialize (H k Hk). cbv zeta in *.
+  destruct (exec (fail_kth k) (extract_from_string ex_input) empty_state) as [o s1]. cbn [fst snd] in *.
+  destruct o; try discriminate. destruct (rc s1); try discriminate. destruct (live s1); try discriminate. auto.
+Qed.
+
+Example stack_push_hypotheses_satisfiable :
+  let s := snd (exec (fun _ => false) stack_create empty_state) in
+  wf s /\ pv s vSTACK = Some 0 /\ pv s vITEMS = Some 1 /\ In 0 (live s) /\ In 1 (live s) /\ 0 <> 1.
+Proof.
+  cbv zeta. split.
+  - eapply exec_wf with (fails := fun _ => false) (c := stack_create) (s := empty_state); [apply wf_empty | apply surjective_pairing].
+  - vm_compute. repeat split; auto. discriminate.
+Qed.
+
+Example arena_release_hypotheses_satisfiable :
+  let s := snd (arena_ops (fun _ => false) 64%N [AAlloc 0 32%N; AReloc 0 2; AAlloc 1 100%N] (repeat (mkbuf 0 0) 3)
+                          (snd (run_op (fun _ => false) arena_create empty_state))) in
+  pv s vARENA = Some 0 /\ Permutation (live s) (0 :: buf_blocks s (seq 0 3) ++ lv s lRELOCS ++ []).
+Proof.
+  vm_compute. split; [reflexivity|].
+  apply NoDup_Permutation; [repeat constructor; cbn; intuition lia | repeat constructor; cbn; intuition lia |].
+  intros x. cbn. intuition lia.
+Qed.
+
+Example notebook_destroy_hypotheses_satisfiable :
+  let s := snd (exec (fun _ => false) notebook_create empty_state) in
+  pv s vNB = Some 0 /\ Permutation (live s) (0 :: lv s lPAGES ++ []).
+Proof. vm_compute. split; [reflexivity | apply perm_swap]. Qed.
